@@ -186,6 +186,9 @@ def defect_positions():
         ("service tag name", "tags: ", setp(["services", "c", "tags"], ["bad tag"])),
         ("service tag dup", "duplicate", setp(["services", "b", "tags"], ["t", "t"])),
         ("decorator tag", "tag: invalid", setp(["decorators"], [{"tag": "bad tag", "decorator": "fx.Dec1"}])),
+        # a placeholder is exempt from the rules about its CONTENT, not from the rule about its name
+        ("todo service name", '"bad todo"', setp(["services", "bad todo"], {"todo": True})),
+        ("todo service name + draft", '"legacy mailer"', setp(["services", "legacy mailer"], {"todo": True, "constructor": "New X", "getter": "1x"})),
         # twins: the same kind of violation with the same offending text in two entries — each one is reported, naming its own key
         ("import alias twin 1 (same path)", 'invalid alias "tw 1"', setp(["meta", "imports", "tw 1"], "tw/in")),
         ("import alias twin 2 (same path)", 'invalid alias "tw 2"', setp(["meta", "imports", "tw 2"], "tw/in")),
@@ -200,7 +203,8 @@ def defect_positions():
 
 
 def base_cfg():
-    return {"meta": {"imports": {"fx": gen.FX}}, "parameters": {"p": 1},
+    # parameters are plain values: strings that would be argument forms in a service (`@x`, `!value x`, `!tagged x`, `$gontainer`) are text
+    return {"meta": {"imports": {"fx": gen.FX}}, "parameters": {"p": 1, "twitter": "@gontainer", "rule": "!value of the rule", "tg": "!tagged x", "g": "$gontainer"},
             "services": {"a": {"constructor": "fx.NewA"}, "b": {"constructor": "fx.NewB"}, "c": {"constructor": "fx.NewC"}, "v": {"value": "fx.Global"}}}
 
 
@@ -245,7 +249,7 @@ def run(ctx):
                 break
     # validation as a whole: k-subsets of simultaneous defects, every one must be named
     defects = defect_positions()
-    subsets = [[d] for d in defects]
+    subsets = [[]] + [[d] for d in defects]      # the empty set: the grammatical base configuration is accepted as it is
     for k in (2, 3, 5):
         for _ in range(20 if ctx.quick else 200):
             subsets.append(ctx.rng.sample(defects, k))
@@ -263,6 +267,8 @@ def run(ctx):
                 corr_fail.append({"op": "compile:" + x[0], "files": [gen.yaml_doc(cfg)], "impl": x[1], "model": x[2]})
         errs = a.get("errs") or []
         text = "\n".join(errs)
+        if not sub and errs:
+            violations.append({"sig": "grammatical-config-rejected", "what": "a configuration that uses only documented forms is rejected: %r" % errs[:4], "files": [gen.yaml_doc(cfg)]})
         for label, key, _ in sub:
             if key not in text:
                 violations.append({"sig": "defect-not-reported", "what": "defect %r (expected mention of %s) is not reported among %r" % (label, key, errs[:8]), "files": [gen.yaml_doc(cfg)]})
